@@ -298,7 +298,7 @@ func (c *Ctx) yamlReaderRefused(decoder *ssa.Function) (runeSet, string, bool) {
 		return iff
 	}
 	S := B
-	for d := B.Idom(); d != nil; d = d.Idom() {
+	for d := ir.Idom(B); d != nil; d = ir.Idom(d) {
 		if testOf(d) == nil {
 			if len(d.Succs) == 1 {
 				continue // right operand of an && / ||
@@ -324,7 +324,7 @@ func (c *Ctx) yamlReaderRefused(decoder *ssa.Function) (runeSet, string, bool) {
 			rej = rej.union(set)
 			return
 		}
-		if len(path) > 0 && (b == S || !S.Dominates(b)) {
+		if len(path) > 0 && (b == S || !ir.Dominates(S, b)) {
 			acc = acc.union(set) // left the check (next iteration or code after it)
 			return
 		}
